@@ -317,9 +317,12 @@ class Lexer(ITokenizer):
 			while index - 1 - escapes >= end and source[index - 1 - escapes] == '\\':
 				escapes += 1
 
-			end = index + len(pair['close'])
 			if escapes % 2 == 0:
+				end = index + len(pair['close'])
 				break
+
+			# XXX エスケープで無効になるのは直後の1文字のみ。残りの文字は次の終了文字列の一部になり得る(`"""a\""""`)
+			end = index + 1
 
 		value = source[begin:end]
 		token_type = TokenTypes.Regexp if value[0] == '/' else TokenTypes.String
